@@ -129,6 +129,9 @@ pub enum Op {
     Auth(AuthOp),
     /// an authentication during which the store's update call fails with this status (reference store only)
     AuthUpdateFault(AuthOp, u8),
+    /// an assertion at the CTAP2 level on the k-th credential of the model with explicit up/uv options; the
+    /// user-validation double reports exactly what is requested (plus verification if `extra_uv`)
+    CtapAuth { target: u16, up: bool, uv: bool, extra_uv: bool },
 }
 
 #[derive(Clone, Debug, Serialize, Deserialize, PartialEq)]
@@ -575,7 +578,7 @@ impl<S: StoreAccess> Runner<S> {
                     }
                 };
                 if self.oracles.c08 {
-                    self.check_counter(mi, &r, &before, &after)?;
+                    self.check_counter(mi, &r.response.authenticator_data, &before, &after)?;
                 } else if let Some(c) = self.model[mi].counter {
                     self.model[mi].counter = Some(c.saturating_add(1));
                 }
@@ -616,8 +619,50 @@ impl<S: StoreAccess> Runner<S> {
         }
     }
 
-    fn check_counter(&mut self, mi: usize, r: &AuthenticatedPublicKeyCredential, before: &[PkSnap], after: &[PkSnap]) -> Result<(), String> {
-        let ad = authdata::decode(&r.response.authenticator_data)?;
+    /// CTAP2-level assertion (the client always sends up=true; here up may be false)
+    pub fn ctap_authenticate(&mut self, target: u16, up: bool, uv: bool, extra_uv: bool) -> Result<(), String> {
+        if self.model.is_empty() {
+            return Ok(());
+        }
+        let mi = idx(target, self.model.len());
+        let (rp, id) = (self.model[mi].rp.clone(), self.model[mi].id.clone());
+        let before = self.store_snapshot();
+        self.client.authenticator().store().clear_log();
+        self.uv.set(UvScript { presence_enabled: true, verification_enabled: Some(true), outcome: Ok((up, uv || extra_uv)), yields: 0 });
+        let req = passkey_types::ctap2::get_assertion::Request {
+            rp_id: rp,
+            client_data_hash: vec![0x5A; 32].into(),
+            allow_list: Some(vec![cer::descriptor(&id)]),
+            extensions: None,
+            options: passkey_types::ctap2::get_assertion::Options { rk: false, up, uv },
+            pin_auth: None,
+            pin_protocol: None,
+        };
+        let res = catch_unwind(AssertUnwindSafe(|| block_on(self.client.authenticator_mut().get_assertion(req)))).map_err(|_| format!("get_assertion panicked: {}", crate::last_panic()));
+        self.uv.set(UvScript::verified());
+        let res = res?;
+        let after = self.store_snapshot();
+        match res {
+            Ok(r) => {
+                self.stats.auth_ok += 1;
+                let used = r.credential.as_ref().map(|c| c.id.to_vec()).unwrap_or_default();
+                if used != id {
+                    return Err("a different credential than the one named was used".into());
+                }
+                if self.oracles.c08 {
+                    self.check_counter(mi, &r.auth_data.to_vec(), &before, &after)?;
+                } else if let Some(c) = self.model[mi].counter {
+                    self.model[mi].counter = Some(c.saturating_add(1));
+                }
+                self.model[mi].assertions += 1;
+                Ok(())
+            }
+            Err(e) => Err(format!("a satisfiable CTAP2 assertion failed with 0x{:02X}", u8::from(e))),
+        }
+    }
+
+    fn check_counter(&mut self, mi: usize, auth_data: &[u8], before: &[PkSnap], after: &[PkSnap]) -> Result<(), String> {
+        let ad = authdata::decode(auth_data)?;
         let id = self.model[mi].id.clone();
         let stored_after = after.iter().find(|s| s.id == id).ok_or("credential vanished from the store")?;
         let stored_before = before.iter().find(|s| s.id == id).ok_or("credential was not in the store before")?;
@@ -687,6 +732,7 @@ pub fn run_history(h: &History, oracles: Oracles) -> Result<Stats, String> {
                     r.client.authenticator().store().set_update_fault(None);
                     res.map_err(|e| format!("op #{i} (authenticate while the store rejects the counter update with 0x{code:02X}): {e}"))?
                 }
+                Op::CtapAuth { target, up, uv, extra_uv } => r.ctap_authenticate(*target, *up, *uv, *extra_uv).map_err(|e| format!("op #{i} (CTAP2 getAssertion up={up} uv={uv}): {e}"))?,
             }
         }
         Ok(r.stats)
